@@ -401,7 +401,7 @@ func runUniverse(r *vk.Run, cfg Config) {
 		bridgeMu.Unlock()
 		tr.point("bridge.data")
 	}
-	errCh := make(chan error, 16)
+	errCh := make(chan error, 1) // as in node.FullNode.Run
 	var loops loopSet
 	loops.spawn("agg.AggregationLoop", func() { agg.M.AggregationLoop(ctx, errCh) })
 	loops.spawn("agg.Reaper", func() { reaper.Start(ctx) })
